@@ -272,7 +272,7 @@ theorem mdc_field_order :
 
 /-- which fields exist only `with_pos`: exactly the coordinates, in every MDC / EMC parser alike -/
 theorem with_pos_fields :
-    let posOnly := fun p => (wiring.lookup p).map fun fs => (fs.filter fun f => f.2.startsWith "pos:").map Prod.fst
+    let posOnly := fun p => (wiring.lookup p).map fun fs => (fs.filter fun f => "pos:".toList.isPrefixOf f.2.toList).map Prod.fst
     posOnly "parse_mdc_gid" = some ["mid_x", "mid_y", "west_x", "west_y", "west_z", "east_x", "east_y", "east_z"] ∧
     posOnly "parse_mdc_digi_id" = posOnly "parse_mdc_gid" ∧ posOnly "parse_mdc_digi" = posOnly "parse_mdc_gid" ∧
     posOnly "parse_emc_gid" = some ["front_center_x", "front_center_y", "front_center_z", "center_x", "center_y", "center_z"] ∧
